@@ -37,15 +37,27 @@ INSTANCE_REL = "LenaModel/Gen/C20InstanceAlt.lean" if ALT else "LenaModel/Props/
 DRIVER = ".lake/c20alt/C20DriverAlt.lean" if ALT else "drivers/C20.lean"
 
 LEAN_MODULES = ["LenaModel.Props.C20", INSTANCE_REL[:-5].replace("/", ".")]
-LEAN_SOURCES = ["LenaModel/Model/C20.lean", "LenaModel/Props/C20.lean", INSTANCE_REL, GEN_REL]
+LEAN_SOURCES = ["LenaModel/Model/C20.lean", "LenaModel/Lemmas/C20.lean", "LenaModel/Props/C20.lean", INSTANCE_REL, GEN_REL]
 THEOREMS = [
+    # general (for all facts)
     "Lena.C20.resolver_sound",
-    "Lena.C20.call_without_import_keeps_state",
-    "Lena.C20.load_resolves_iff",
-    "Lena.C20.attr_resolves_iff",
-    "Lena.C20.walk_none_iff",
-    "Lena.C20.exported_of_resolvesAll",
     "Lena.C20.import_ok_of_resolvesAll",
+    "Lena.C20.exported_of_resolvesAll",
+    "Lena.C20.load_resolves_iff",
+    "Lena.C20.lookupScope_isSome_iff",
+    "Lena.C20.walk_none_iff",
+    "Lena.C20.attr_resolves_iff",
+    "Lena.C20.call_without_import_keeps_state",
+    "Lena.C20.module_value_is_imported",
+    "Lena.C20.not_imported_not_bound",
+    "Lena.C20.importMod_stable",
+    "Lena.C20.sys_modules_grow",
+    "Lena.C20.loaded_after_import",
+    "Lena.C20.State.get_set_same",
+    "Lena.C20.State.get_set_other",
+    "Lena.C20.State.statusOf_setStatus_same",
+    "Lena.C20.State.statusOf_setStatus_other",
+    # instance (the current working tree; re-checked by the kernel on every run)
     "Lena.C20.current_tree_resolves",
     "Lena.C20.current_tree_safe",
     "Lena.C20.all_exported",
@@ -79,7 +91,7 @@ CASE_TIMEOUT = 30
 
 _PY = sys.executable
 _PROBE = str(VERIF / "harness" / "c20_probe.py")
-_state = {"facts": None, "lock": None, "static": {}, "behaviour": {}}
+_state = {"facts": None, "lock": None, "static": {}, "behaviour": {}, "random": None}
 
 
 # ----------------------------------------------------------------------------------------------------------
@@ -133,7 +145,8 @@ def _run_probe(mode, pkg):
     env = dict(os.environ, PYTHONWARNINGS="ignore", PYTHONDONTWRITEBYTECODE="1", PYTHONHASHSEED="0")
     env.pop("PYTHONPATH", None)
     # -I: isolated (no PYTHONPATH, no script directory on sys.path); the probe puts the tree under test first
-    p = subprocess.run([_PY, "-I", _PROBE, str(REPO), mode, pkg, json.dumps(facts["subpackages"])],
+    extra = [json.dumps(_state["random"])] if _state["random"] and mode != "static" else []
+    p = subprocess.run([_PY, "-I", _PROBE, str(REPO), mode, pkg, json.dumps(facts["subpackages"])] + extra,
                        capture_output=True, text=True, timeout=600, env=env, cwd="/tmp")
     if p.returncode != 0 or not p.stdout.strip():
         raise RuntimeError(f"probe {mode} {pkg} failed rc={p.returncode}: {p.stderr[-1500:]}")
@@ -167,6 +180,9 @@ def _entry_name(pkg):
 
 def gen_cases(ctx):
     facts = _facts()
+    if ctx.tier == "thorough":
+        # seeded random argument tuples on top of the fixed palettes (the same in both interpreters)
+        _state["random"] = {"n": 150, "seed": ctx.rng.randrange(2 ** 32)}
     _probe_all(ctx)
     cases = [{"kind": "meta"}]
     by_name = {m["name"]: m for m in facts["modules"]}
@@ -174,6 +190,8 @@ def gen_cases(ctx):
     for pkg in facts["subpackages"] + ["all"]:
         cases.append({"kind": "entry", "entry": pkg})
         pr = _probe("static", pkg)
+        if pr["import"] != "ok":
+            continue        # the entry case reports the failing import; nothing is callable
         keys = set(pr.get("funcs", {}))
         for mname in pr.get("loaded", []):
             for f in by_name.get(mname, {}).get("funcs", []):
@@ -190,6 +208,8 @@ def gen_cases(ctx):
             cases.append({"kind": "behaviour", "pkg": pkg, "name": None})
         for n in names:
             cases.append({"kind": "behaviour", "pkg": pkg, "name": n})
+    # the scope of the quantifier (sub-packages x advertised names x functions x global loads) is enumerated
+    # completely; the argument tuples of the behaviour cases are a fixed palette (+ a seeded sample in thorough)
     ctx.exhaustive = True
     return cases
 
@@ -265,7 +285,7 @@ def compare(case, res, replies):
         for mod in res["loaded"]:
             real, model = res["ns"][mod], m["ns"].get(mod, {})
             extra_real = {k for k in real if k not in model and k not in may.get(mod, ()) and not
-                          any(s.startswith("*") for s in may.get(mod, ()))}
+                          any(s.startswith("*") for s in may.get(mod, ())) and k != "__warningregistry__"}
             extra_model = {k for k in model if k not in real}
             if extra_real or extra_model:
                 return f"namespace of {mod}: only in the interpreter {sorted(extra_real)}, only in the model {sorted(extra_model)}"
@@ -327,7 +347,8 @@ def oracle(case, res):
     if kind == "entry":
         e = case["entry"]
         if res["import"] != "ok":
-            return f"`import {e}` in a fresh interpreter fails: {res['import']['type']}: {res['import']['msg']}"
+            what = "importing all sub-packages" if e == "all" else f"`import {e}`"
+            return f"{what} in a fresh interpreter fails: {res['import']['type']}: {res['import']['msg']}"
         for pkg, s in res["star"].items():
             if s.get("missing"):
                 return f"{pkg}.__all__ advertises names that do not exist: {s['missing']}"
@@ -360,11 +381,30 @@ def oracle(case, res):
                     return f"{case['pkg']}.{k} ({lab}) fails by referring to an undefined name: {d[k]}"
         if own != full:
             for k in sorted(set(own) | set(full)):
+                if "timeout" in (own.get(k), full.get(k)):
+                    continue        # a watchdog outcome is not a behaviour
                 if own.get(k) != full.get(k):
                     return (f"{case['pkg']}.{k} behaves differently with only {case['pkg']} imported ({own.get(k)}) "
                             f"and with the whole framework imported ({full.get(k)})")
         return None
     raise ValueError(kind)
+
+
+def search_cases(sctx):
+    """called when the proof or the correspondence is broken and no generated case fails: the scope was enumerated
+    completely already, so there is nothing more to search; print what the Lean resolver itself reports"""
+    sctx.exhaustive = True
+    try:
+        from harness.common import ModelDriver
+        rep = ModelDriver(DRIVER).ask([{"op": "findings"}], timeout=600)[0]
+        for f in rep.get("findings", [])[:20]:
+            print(f"# C20 model-finding: entry {f['entry']}: {f.get('module')} {f.get('func')} "
+                  f"(line {f.get('line')}): {json.dumps(f['err'], sort_keys=True)}")
+        if not rep.get("findings"):
+            print("# C20 model-finding: the resolver reports no unresolved name for these facts")
+    except Exception as e:    # the Lean side may not have been built
+        print(f"# C20 model-finding: driver not available ({str(e)[:200]})")
+    return []
 
 
 def nontrivial(case, res):
@@ -400,7 +440,11 @@ def signature(case, failure):
         # one report per function, whatever the entry point it was seen from
         return f"func:{case['module']}:{case['func']}"
     if case["kind"] == "behaviour":
+        if "_fatal)" in (failure or ""):
+            return f"behaviour-fatal:{case['pkg']}"
         return f"behaviour:{case['pkg']}:{case['name']}"
+    if case["kind"] == "entry" and "__all__" in (failure or ""):
+        return "entry:" + failure           # the same missing name seen from two entry points is one finding
     return f"{case['kind']}:{case.get('entry', '')}"
 
 
